@@ -168,19 +168,32 @@ def follow(fb, body, args, taint, trail, seen, depth=0):
     if depth > 8 or body.path in seen:
         return None
     seen = seen | {body.path}
-    eng = common.mk_engine(fb, no_inline=lambda x: True)
+    # (trivial wrappers -- a newtype constructor, a `From` impl without calls -- are looked through)
+    eng = common.mk_engine(fb, no_inline=lambda x: not (len(x.blocks) <= 2 and not list(x.calls())))
     try:
         paths = eng.run(body, args=args)
     except psi.PathLimit:
         return None
     nexts = []
+
+    def where_in(v, depth_=0):
+        """dotted path of the field (of nested private structs / newtypes) that holds the value unchanged"""
+        if v == taint:
+            return ''
+        if v[0] != 'agg' or v[2] is None or depth_ > 3 or v[1].startswith('std::'):
+            return None
+        adt = eng.find_adt(v[1]) or {}
+        names = [f['name'] for f in adt.get('variants', [{}])[0].get('fields', [])]
+        for nm, f in zip(names, v[3]):
+            sub = where_in(f, depth_ + 1)
+            if sub is not None:
+                return nm + ('.' + sub if sub else '')
+        return None
     for p in paths:
-        if p.kind == 'return' and p.value is not None and p.value[0] == 'agg' and any(f == taint for f in p.value[3]):
-            adt = eng.find_adt(p.value[1]) or {}
-            names = [f['name'] for f in adt.get('variants', [{}])[0].get('fields', [])]
-            for nm, f in zip(names, p.value[3]):
-                if f == taint:
-                    return body, nm, trail + [body.path]
+        if p.kind == 'return' and p.value is not None and p.value[0] == 'agg' and len(body.blocks) > 2:
+            dotted = where_in(p.value)
+            if dotted:
+                return body, dotted, trail + [body.path]
         for ef in p.effects:
             if ef['kind'] != 'call' or ef.get('tracing'):
                 continue
